@@ -5,6 +5,7 @@ Protocol command for edit/query histories of a collection (property C10):
      app:P  ins:i:P  rem:P  del:i  rep:P:Q  con:P:Q  exp:n  sort  copy
      q.str q.len q.getlen q.alg q.dim q.deps q.indeps q.verts q.morphs
      q.isin:X,Y  q.seldep:X,Y  q.space  q.pair  q.sub  q.find:P  q.index:P
+     q.graph q.compsA q.commutants q.cgraph q.pairs        (graph queries, property C14)
 
 One reply field per op, joined by '|': an edit answers `ok=<generators>` or
 `!Err=<generators>`; a query its canonical answer.
@@ -31,6 +32,16 @@ def qOfText (t : List String) : Option Q :=
   | ["q.getlen"] => some (.plain (fun g => match g with | [] => "0" | x :: _ => toString x.len))
   | ["q.pair"] => some (.plain (fun g => showExcept toString (Graph.anticommutationPair g)))
   | ["q.sub"] => some (.plain (fun g => showExcept CmdGraph.showComps (Graph.getSubgraphs g)))
+  | ["q.graph"] => some (.plain (fun g => showExcept (fun (r : List PS × List (PS × PS × PS)) =>
+      s!"V={showPSList r.1}#E={CmdGraph.joinOr (r.2.map CmdGraph.showEdge3)}") (Graph.getGraph g [])))
+  | ["q.compsA"] => some (.plain (fun g => showExcept CmdGraph.showComps (Graph.getGraphComponents g false)))
+  | ["q.commutants"] => some (.plain (fun g => showExcept showPSList (Graph.getCommutants g)))
+  | ["q.cgraph"] => some (.plain (fun g => showExcept (fun (r : List PS × List (PS × PS)) =>
+      s!"V={showPSList r.1}#E={CmdGraph.joinOr (r.2.map CmdGraph.showEdge2)}") (Graph.getCommutatorGraph g)))
+  | ["q.pairs"] => some (.plain (fun g =>
+      let ap := showExcept toString (Graph.anticommutationPair g)
+      let fr := showExcept (fun (r : Nat × Nat) => s!"{r.1}/{r.2}") (Graph.anticommutationFraction g)
+      s!"anti={ap}#pair={Graph.getPair g}#frac={fr}"))
   | ["q.find", p] => do
     let p ← ps? p
     some (.plain (fun g => match findIdx g p with | some i => toString i | none => "-1"))
@@ -96,7 +107,7 @@ def handle (line : String) : Option String :=
         let (s', r) ← runOne s o
         s := s'
         out := out ++ [r]
-      return String.intercalate "|" out
+      return String.intercalate "\t" out
   | _ => none
 
 end CmdCollection
